@@ -127,6 +127,16 @@ DATA_OBJS = [
     ('o50', 'struct { int a : 7; int b : 9; int c : 17; char d; } o50 = { 1, 2, 3, 4 }'), ('o51', 'struct { long l : 40; short s; } o51 = { 5, 6 }'),
     ('o52', 'union { char c[3]; short s; } o52 = { "ab" }'), ('o53', 'long double o53'), ('o54', 'struct { char c; long double ld; } o54'),
 ]
+# objects first declared while their structure or union type is still incomplete (the alignment is only known at the definition)
+DATA_OBJS += [
+    ('o200', 'struct late1; extern struct late1 o200; struct late1 { long a; int b; }; struct late1 o200 = {1, 2}'),
+    ('o201', 'union late2; extern union late2 o201; union late2 { double d; char c; }; union late2 o201'),
+    ('o202', 'struct late3; typedef struct late3 late3t; extern late3t o202; struct late3 { int a; short b; }; late3t o202 = {3, 4}'),
+    ('o203', 'struct late4; extern _Thread_local struct late4 o203; struct late4 { long a; }; _Thread_local struct late4 o203 = {5}'),
+    ('o204', 'struct late5; extern struct late5 o204; struct late5 { _Alignas(32) char c; }; struct late5 o204'),
+    ('o205', 'extern int o205[]; int o205[3] = {1}'),
+    ('o206', 'extern double o206[]; double o206[2]'),
+]
 # a bit-field that ends inside a byte (all ones, so the unfinished byte is not zero) followed by every kind of next member, adjacent or after a gap
 _k = 60
 for _w in (1, 3, 7, 8, 9, 12, 15, 17, 31):
